@@ -1,7 +1,8 @@
 #!/bin/sh
-# run every registered quick check; print one line per property
+# run every registered check (quick by default); print one line per property, and the end of the output when a check does not exit 0
 cd "$(dirname "$0")/.."
 for p in $(.venv/bin/python -c "import json;print(' '.join(c['property_id'] for c in json.load(open('MANIFEST.json'))['checks']))"); do
   out=$(./check $p --tier ${1:-quick} 2>&1); rc=$?
   echo "$p rc=$rc $(echo "$out" | tail -1 | cut -c1-170)"
+  if [ $rc -ne 0 ]; then echo "$out" | grep -v conda.cli | tail -40 | cut -c1-400 | sed 's/^/    | /'; fi
 done
